@@ -79,6 +79,22 @@ func cidAtoms(cid string) []string {
 
 // ---------------------------------------------------------------- error classes (projection only)
 
+// chainHas reports whether any error of the chain has a message containing sub.
+func chainHas(err error, sub string) bool {
+	if err == nil {
+		return false
+	}
+	if strings.Contains(err.Error(), sub) {
+		return true
+	}
+	for _, e := range errs.Unwrap(err) {
+		if chainHas(e, sub) {
+			return true
+		}
+	}
+	return false
+}
+
 func fatalKind(err error) string {
 	switch {
 	case err == nil:
@@ -87,9 +103,9 @@ func fatalKind(err error) string {
 		return "closed"
 	case errors.Is(err, network.ErrReceiveBufferFull):
 		return "overflow"
-	case strings.Contains(err.Error(), "failed to decode message"):
+	case chainHas(err, "failed to decode message"):
 		return "decode"
-	case strings.Contains(err.Error(), "router reader panicked"):
+	case chainHas(err, "router reader panicked"):
 		return "panic"
 	default:
 		return "delivery"
@@ -130,7 +146,7 @@ func classify(in *interner, out map[sharing.ID][]byte, err error) callResult {
 	case errors.Is(err, network.ErrInvalidArgument):
 		r.Kind = "busy"
 	case errors.Is(err, network.ErrRouterClosed) || errors.Is(err, network.ErrReceiveBufferFull) || errors.Is(err, errLinkDown) ||
-		strings.Contains(err.Error(), "failed to decode message"):
+		chainHas(err, "failed to decode message"):
 		r.Kind = "fatal"
 		r.Why = fatalKind(err)
 	case errors.Is(err, context.Canceled) || errors.Is(err, context.DeadlineExceeded):
@@ -200,13 +216,29 @@ func traceHook(core any, ctx context.Context, st network.VerifState) {
 		st.Payload = append([]byte(nil), st.Payload...)
 	}
 	r.mu.Lock()
-	r.hooks = append(r.hooks, hookEv{st: st, who: whoOf(ctx)})
+	who := whoOf(ctx)
+	if st.Ev == "close" {
+		who = "close"
+	}
+	r.hooks = append(r.hooks, hookEv{st: st, who: who})
 	r.mu.Unlock()
 }
 
-func (r *recorder) addRecv(it recvItem)   { r.mu.Lock(); r.recvs = append(r.recvs, it); r.mu.Unlock() }
-func (r *recorder) addCancel(c cancelItem) { r.mu.Lock(); r.cancels = append(r.cancels, c); r.mu.Unlock() }
-func (r *recorder) addRet(x retItem)       { r.mu.Lock(); r.rets = append(r.rets, x); r.mu.Unlock() }
+func (r *recorder) addRecv(it recvItem) { r.mu.Lock(); r.recvs = append(r.recvs, it); r.mu.Unlock() }
+func (r *recorder) addCancel(c cancelItem) {
+	r.mu.Lock()
+	r.cancels = append(r.cancels, c)
+	r.mu.Unlock()
+}
+func (r *recorder) addRet(x retItem) { r.mu.Lock(); r.rets = append(r.rets, x); r.mu.Unlock() }
+
+// snapshot copies what has been recorded so far.
+func (r *recorder) snapshot() *recorder {
+	r.mu.Lock()
+	defer r.mu.Unlock()
+	return &recorder{in: r.in, hooks: append([]hookEv(nil), r.hooks...), recvs: append([]recvItem(nil), r.recvs...),
+		cancels: append([]cancelItem(nil), r.cancels...), rets: append([]retItem(nil), r.rets...)}
+}
 
 // ---------------------------------------------------------------- delivery
 
@@ -228,6 +260,7 @@ type hdelivery struct {
 	rec      *recorder
 	router   *network.Router // set after NewRouter; used to read the sequence counter
 	honour   bool            // honour ctx cancellation (free mode)
+	quit     chan struct{}   // closed at tear-down: Receive fails
 	atRecv   func()          // replay mode: called on entry of Receive (blocks until released)
 	sendHook func(to sharing.ID, data []byte) error
 }
@@ -246,14 +279,16 @@ func (d *hdelivery) Receive(ctx context.Context) (sharing.ID, []byte, error) {
 		d.atRecv()
 	}
 	var m wireMsg
+	var done <-chan struct{}
 	if d.honour {
-		select {
-		case m = <-d.in:
-		case <-ctx.Done():
-			m = wireMsg{err: ctx.Err()}
-		}
-	} else {
-		m = <-d.in
+		done = ctx.Done()
+	}
+	select {
+	case m = <-d.in:
+	case <-done:
+		m = wireMsg{err: ctx.Err()}
+	case <-d.quit:
+		m = wireMsg{err: errLinkDown}
 	}
 	it := recvItem{from: m.from, cid: m.cid, pay: m.pay, bad: m.bad, err: m.err != nil}
 	if d.router != nil {
@@ -390,8 +425,8 @@ func (r *recorder) merged(calls map[string]callInfo) []map[string]any {
 			ev["pay"] = r.in.tok(st.Payload)
 		}
 		if strings.HasPrefix(st.Ev, "en-") {
-			if ci, ok := calls[h.who]; ok {
-				ev["froms"] = ci.Froms
+			if info, ok := calls[h.who]; ok {
+				ev["froms"] = info.Froms
 			} else {
 				ev["froms"] = []int{}
 			}
